@@ -129,6 +129,12 @@ def handleBinary (s : DState) (toks : List String) : Option Out :=
     | some bs =>
       some (s, ["verbyte " ++ rle ((List.range 256).map fun v => classify (bs.set 3 (UInt8.ofNat v)))])
     | none => none
+  | ["hdrbyte", hex] =>
+    match parseBytes hex with
+    | some bs =>
+      some (s, ["hdrbyte " ++ rle ((List.range 256).map fun v =>
+        classify ([0x48, 0x50, 0x4f, UInt8.ofNat v] ++ bs))])
+    | none => none
   | ["rtcheck", a, b] =>
     match a.toNat?.bind s.slot, b.toNat?.bind s.slot with
     | some _, some _ => some (s, ["oracle ok"])
